@@ -178,6 +178,7 @@ type vpeer struct {
 	files   map[string]*pfile // by path
 	handles map[string]*pfile
 	hpath   map[string]string
+	dirs    map[string]int // directory handle -> READDIR calls answered
 	nextH   int
 	pending []preq
 	eof     bool
@@ -195,7 +196,7 @@ type vpeer struct {
 }
 
 func newVPeer(in, out *VPipe) *vpeer {
-	return &vpeer{in: in, out: out, files: map[string]*pfile{}, handles: map[string]*pfile{}, hpath: map[string]string{}, outst: map[uint32]bool{},
+	return &vpeer{in: in, out: out, files: map[string]*pfile{}, handles: map[string]*pfile{}, hpath: map[string]string{}, outst: map[uint32]bool{}, dirs: map[string]int{},
 		FailOff: map[uint64]string{}, ShortAt: map[uint64]int{}, NoReply: map[uint32]bool{}}
 }
 
@@ -297,6 +298,10 @@ func (p *vpeer) answer(r preq) []byte {
 		p.hpath[h] = r.path
 		return respHandle(r.id, h)
 	case sshFxpClose:
+		if _, ok := p.dirs[r.handle]; ok {
+			delete(p.dirs, r.handle)
+			return respStatus(r.id, sshFxOk, "")
+		}
 		if p.handles[r.handle] == nil {
 			return respStatus(r.id, sshFxFailure, "bad handle "+r.handle)
 		}
@@ -365,6 +370,21 @@ func (p *vpeer) answer(r preq) []byte {
 			f.data = f.data[:r.off]
 		}
 		return respStatus(r.id, sshFxOk, "")
+	case sshFxpOpendir:
+		p.nextH++
+		h := fmt.Sprintf("d%d", p.nextH)
+		p.dirs[h] = 0
+		return respHandle(r.id, h)
+	case sshFxpReaddir:
+		n, ok := p.dirs[r.handle]
+		if !ok {
+			return respStatus(r.id, sshFxFailure, "bad handle "+r.handle)
+		}
+		p.dirs[r.handle] = n + 1
+		if n == 0 {
+			return respName1(r.id, "entry-of-"+r.handle)
+		}
+		return respStatus(r.id, sshFxEOF, "EOF")
 	case sshFxpReadlink:
 		return respName1(r.id, "link:"+r.path)
 	case sshFxpRealpath:
